@@ -736,6 +736,32 @@ def build():
         ensures={"wraps_the_functions_own_value": "is_tag(result, 'not-memorized-result') and is_tag(result.value, 'plain-result')"},
         ensures_body={"called_once_with_the_callers_arguments": "n_events('plain-call') == 1 and ev_named('plain-call')[0][1] == args"},
     ))
+    # ------------------------------------------------------------------ _get_args_id: the key of a call is the digest of its canonical arguments, computed afresh
+    # (the mem pack uses it through the summary KEY = hash(filter_args(...)); this is the real body: one filter_args over the caller's arguments
+    # and the wrapper's ignore list, one joblib.hash of exactly that dict, returned unchanged - no memo table between the arguments and their digest)
+    def fa_stub(interp, args, kwargs):
+        interp.ctx.events.append(("filter_args", args[0], args[1], args[2], args[3]))
+        return Opaque("canonical-arguments", None)
+
+    def hash_stub(interp, recv, args, kwargs):
+        interp.ctx.events.append(("hashing.hash", args[0], kwargs.get("coerce_mmap", "missing")))
+        return Opaque("digest", None)
+
+    p.models["hashingmod.hash"] = hash_stub
+    gid_glob = dict(glob)
+    gid_glob["filter_args"] = lambda interp: _Fn(fa_stub)
+    gid_glob["hashing"] = lambda interp: Opaque("hashingmod", None)
+    p.add(Contract(
+        MEM, "MemorizedFunc._get_args_id", props=["C02", "C06"], globals=gid_glob,
+        params=dict(self=mfunc(mmap_mode=OneOf(None, "r")), args=(Opaque("userarg", "a"),), kwargs=PyDict({"k": Opaque("userarg", "b")})),
+        ensures={"the_digest_of_the_canonical_arguments": "is_tag(result, 'digest')"},
+        ensures_body={
+            "canonical_form_of_exactly_this_call": "n_events('filter_args') == 1 and ev_named('filter_args')[0][1] is self.func and ev_named('filter_args')[0][2] is self.ignore "
+                                                   "and ev_named('filter_args')[0][3] == args and ev_named('filter_args')[0][4] is kwargs",
+            "hashed_once_and_afresh": "n_events('hashing.hash') == 1 and is_tag(ev_named('hashing.hash')[0][1], 'canonical-arguments') and ev_named('hashing.hash')[0][2] == (self.mmap_mode is not None)",
+        },
+    ))
+
     # ------------------------------------------------------------------ Memory.cache: what the wrapper is built from
     def new_wrapper(kind):
         def h(interp, args, kwargs):
